@@ -1,7 +1,7 @@
 """C03: Segment algebra. A case is a triple of segments in integer ticks."""
 import itertools
 
-from harness import enc
+from harness import enc, gen
 from harness.timebase import TB, REGIMES
 
 PROP = "C03"
@@ -55,6 +55,7 @@ def generate(rng, tier):
             cases.append({"regime": regime, "a": a, "b": b, "c": c})
         meta["by_regime"][regime] = len(cases) - n0
     meta["note"] = "grid part exhaustive over pairs (quick) / triples (thorough); random part sampled"
+    cases += gen.far_copies(rng, cases, ['a', 'b', 'c'], (400 if tier == "thorough" else 60))
     return {"cases": cases, "meta": meta}
 
 
